@@ -354,6 +354,15 @@ func oracle(s Session, idx int, res *lib.Result) {
 				bad(i, "reply-differs-on-websocket", fmt.Sprintf("topic %q, websocket %q", trunc(o.Reply), trunc(o.WsReply)))
 			}
 		}
+		if !json.Valid(it.Msg) {
+			// a message that is not JSON is not a command: refused, nothing changed
+			switch {
+			case !answeredWithError:
+				bad(i, "invalid-command-executed", fmt.Sprintf("the message is not valid JSON but was answered with a result: %q", trunc(o.Reply)))
+			case !sameTables(prev, o):
+				bad(i, "invalid-command-executed", fmt.Sprintf("the message is not valid JSON but the rule tables changed: before %v / %v, after %v / %v", sortedKeys(prev.Dests), prev.Streams, sortedKeys(o.Dests), o.Streams))
+			}
+		}
 		if answeredWithError && !sameTables(prev, o) {
 			bad(i, "error-changed-rules", fmt.Sprintf("answered with an error but the rule tables changed: before %v / %v, after %v / %v", prev.Dests, prev.Streams, o.Dests, o.Streams))
 		}
